@@ -5,6 +5,7 @@ Property theorems over the stream machine of `Model.lean` (all op sequences, eve
 import TornadoModel.C11.Contract3
 import TornadoModel.C11.StdR
 import TornadoModel.C11.Arrival4
+import TornadoModel.C11.Sched3
 namespace TornadoModel.C11
 variable (R : Nat → Bytes → Option Nat)
 
@@ -263,6 +264,35 @@ theorem arrival_independent_partial :
     have h2 := arrival_batch R hS hL c m hc segs2 (hseg ▸ hm) reads hst results (hseg ▸ hres)
     refine ⟨h1.trans h2.symm, ?_⟩
     rw [evBytes_dataEvs, evBytes_dataEvs, h1, h2]
+
+/-- **arrival_schedule** (ANY interleaving of arrivals and requests — requests issued up front, re-issued on
+    completion, or at any other time).  `ops` is an arbitrary list of `feed`s and stable read requests.  A request is
+    *accepted* iff no read is pending when it is issued (`accepted`; the others are rejected with "Already reading" and
+    change nothing) — with "issue the next request when the previous one has completed" every request is accepted.
+    Then the results handed out during the run are, result by result, the first results of the strict batch reader over
+    the WHOLE byte stream (`fedAll ops`, including bytes that arrive after the request was issued or completed) applied
+    to the accepted requests: the k-th accepted request returns `batch[k]`, however the stream is cut into arrivals
+    and whenever the requests are issued.  (Prefix, not equality: a request whose bytes have not all arrived, or are
+    not yet pulled from the transport because no handler is registered, is still pending at the end of `ops`.)
+    Side conditions as for `arrival_batch`: chunk > 0, stream ≤ max_buffer_size, `batch ≠ none` (no request runs
+    into `max_bytes`), no EOF / error / close / close-callback ops in the schedule. -/
+theorem arrival_schedule (hS : RStable R) (hL : RLocal R) (c m : Nat) (hc : 0 < c) (ops : List Op)
+    (hops : ∀ op ∈ ops, schedOp op = true) (hm : (fedAll ops).length ≤ m) (results : List Bytes)
+    (hb : batch R (fedAll ops) (accepted R (init c m) ops) = some results) :
+    (dataEvs (runEvs (run R (init c m) ops).2)).map (·.2) <+: results.map .bytes := by
+  have o : OpenSt c m (init c m) [] :=
+    ⟨rfl, rfl, rfl, rfl, by simp [init], rfl, rfl, rfl, rfl, rfl, init_inv c m⟩
+  have := (sched_prefix R hS hL c m hc ops (init c m) [] o hops (by simpa [fedOf, fedAll] using hm)).1 rfl results
+    (by simpa [fedOf, fedAll] using hb)
+  exact this
+
+-- non-vacuity: a request issued up front, the next ones re-issued after completion, arrivals in between
+example : accepted stdR (init 4 100) [.readUntil [13, 10] none, .feed [97, 13], .feed [10, 98], .readBytes 2 false,
+            .feed [99, 49], .readRegex 1 none, .feed [50, 120, 100]] =
+    [.readUntil [13, 10] none, .readBytes 2 false, .readRegex 1 none] := by decide
+example : (dataEvs (runEvs (run stdR (init 4 100) [.readUntil [13, 10] none, .feed [97, 13], .feed [10, 98],
+            .readBytes 2 false, .feed [99, 49], .readRegex 1 none, .feed [50, 120, 100]]).2)).map (·.2) =
+    [.bytes [97, 13, 10], .bytes [98, 99], .bytes [49, 50, 120]] := by decide
 
 -- non-vacuity: the engine of the tie meets both hypotheses; a delimiter read with max_bytes, a fixed-size read and a
 -- regex read over a stream cut in two ways
